@@ -69,7 +69,9 @@ def atomic_violation(job, obs):
         return "the destination is a partial / corrupt file"
     if obs["exc"] is None and obs["dst"] != "new" and job["ep"] in (3, 4):
         return "no error but the destination is not the new map"
-    if obs["exc"] and obs["exc"].startswith("other:") and job.get("step", -1) < 0:
+    if job.get("real") and obs["exc"] is None:
+        return "a real failure of an archive operation (a sound that cannot be read) was not reported: the call returned normally"
+    if obs["exc"] and obs["exc"].startswith("other:") and job.get("step", -1) < 0 and not job.get("real"):
         return f"the call failed without an injected fault: {obs['exc']}"
     return None
 
@@ -103,7 +105,7 @@ def run(ck: vlib.Check):
                "archives (0, 1, 3 sounds), destination absent / existing: EVERY primitive call the model enumerates "
                "(temp-file creation, archive open/add/compact/extract/close, copies, the CHK write, os.replace, the pure "
                "encode/decode/duration steps) made to fail before, after and (copies, extraction, CHK write) part-way, "
-               "one fault per run, plus the fault-free run; observed (exception class, base hash, destination state, "
+               "one fault per run, plus the fault-free run, plus REAL failures of the archive library (an unreadable sound, nothing injected); observed (exception class, base hash, destination state, "
                "leftover files) compared with the model's execution for the same fault, and judged against the "
                "property directly. Exhaustive over fault points per configuration. Distinct = distinct (config, step, kind).")
     ck.regen(["iodefaults"])
@@ -190,6 +192,19 @@ def run(ck: vlib.Check):
         if bad:
             ck.violation(f"{bad} ({j['exc']} error before step {j['step']} {j['prim']}, then a second fault at step {j['step2']})",
                          {"kind": "fault", "job": j, "observed": obs}, True)
+    # real failures of the archive library, nothing injected: a "sound" that cannot be read (a directory of that name)
+    real = [dict(c, step=-1, kind=0, real="unreadable-sound") for c in cfgs if c["ep"] == 4]
+    for j, obs in zip(real, run_jobs(real)):
+        ck.evaluations += 1
+        ck.note_case(json.dumps(j, sort_keys=True))
+        if obs.get("harness_error"):
+            ck.oblige("harness:run", False, obs["harness_error"])
+            continue
+        bad = atomic_violation(j, obs)
+        if bad:
+            ck.violation(f"add_audio_files_to_mpq with a sound the archive library cannot read: {bad}",
+                         {"kind": "fault", "job": j, "observed": obs}, True)
+    ck.extra["real_failure_runs"] = len(real)
     ck.extra["second_order_runs"] = {"first_fault_as_os_specific_error": len(second), "two_faults": len(follow)}
     if drv_ok:
         ck.corr_count("fault-injected runs: real code + real StormLib vs the model's execution for the same fault",
